@@ -201,9 +201,78 @@ impl Prop for C07 {
                 let exps = expectations(&conv);
                 if let Err(m) = check_reply(&exps[1], &d.replies[1], true) {
                     ex.fail("c07-row-differs", m.chars().take(600).collect::<String>());
+                    return ex;
+                }
+                // second opinion: mysql_common's own column and binary-row parsers on the raw packets
+                if cols.iter().all(|c| mysql_common::constants::ColumnType::try_from(c.coltype).is_ok()) {
+                    if let Err(m) = second_opinion(&d, &d.replies[1], cols, rows) {
+                        ex.fail("c07-second-opinion", m);
+                    }
+                } else {
+                    ex.class("second-opinion-skipped(type unknown to mysql_common)");
                 }
             }
         }
         ex
     }
+}
+
+/// mysql_common (the `mysql` crate's protocol layer) decodes the same packets: column definitions
+/// with `Column`, rows with `RowDeserializer<ServerSide, Binary>`; its values must denote what the
+/// shim wrote.
+fn second_opinion(d: &Decoded, r: &Response, cols: &[ColSpec], rows: &[RowProg]) -> Result<(), String> {
+    use mysql_common::io::ParseBuf;
+    use mysql_common::packets::Column as MyColumn;
+    use mysql_common::proto::{Binary, MyDeserialize};
+    use mysql_common::row::RowDeserializer;
+    use mysql_common::value::{ServerSide, Value as MyValue};
+    let msgs = &d.msgs[r.first_msg..r.first_msg + r.n_msgs];
+    let n = cols.len();
+    if msgs.len() < 1 + n + 1 + rows.len() + 1 {
+        return Err("response shorter than header + rows".into());
+    }
+    let mut mycols = Vec::with_capacity(n);
+    for (i, m) in msgs[1..1 + n].iter().enumerate() {
+        let mut buf = ParseBuf(&m.payload[..]);
+        mycols.push(MyColumn::deserialize((), &mut buf).map_err(|e| format!("mysql_common rejects column definition {}: {}", i, e))?);
+    }
+    let mycols: std::sync::Arc<[MyColumn]> = mycols.into();
+    for (ri, (m, wrow)) in msgs[1 + n + 1..].iter().zip(rows).enumerate() {
+        let mut buf = ParseBuf(&m.payload[..]);
+        let row = RowDeserializer::<ServerSide, Binary>::deserialize(mycols.clone(), &mut buf).map_err(|e| format!("mysql_common rejects binary row {}: {}", ri, e))?.into_inner();
+        if !buf.is_empty() {
+            return Err(format!("mysql_common leaves {} bytes of binary row {} unread", buf.len(), ri));
+        }
+        let vals = row.unwrap();
+        for (ci, (v, w)) in vals.iter().zip(&wrow.cells).enumerate() {
+            let want = sem_of_val(w);
+            let got = match v {
+                MyValue::NULL => Sem::Null,
+                MyValue::Bytes(b) => Sem::Bytes(b.clone()),
+                MyValue::Int(i) => Sem::Int(*i as i128),
+                MyValue::UInt(u) => Sem::Int(*u as i128),
+                MyValue::Float(f) => Sem::Float((*f as f64).to_bits()),
+                MyValue::Double(f) => Sem::Float(f.to_bits()),
+                MyValue::Date(y, mo, dd, h, mi, s, us) => {
+                    if cols[ci].coltype == T_DATE {
+                        Sem::Date(*y as i32, *mo as u32, *dd as u32)
+                    } else {
+                        Sem::DateTime(*y as i32, *mo as u32, *dd as u32, *h as u32, *mi as u32, *s as u32, *us)
+                    }
+                }
+                MyValue::Time(neg, dd, h, mi, s, us) => {
+                    let total = ((*dd as u128 * 24 + *h as u128) * 60 + *mi as u128) * 60 * 1_000_000 + *s as u128 * 1_000_000 + *us as u128;
+                    if *neg && total != 0 {
+                        Sem::NegTime(total)
+                    } else {
+                        Sem::Time(total)
+                    }
+                }
+            };
+            if got != want {
+                return Err(format!("row {} col {} (type {}): mysql_common decodes {:?}, shim wrote {:?}", ri, ci, cols[ci].coltype, got, want));
+            }
+        }
+    }
+    Ok(())
 }
